@@ -6,7 +6,7 @@
 //                              the returned point is start + t (end - start) with 0 <= t <= 1: a point OF the segment
 //   * Rect / Triangle       -- Intersection(p) exactly on the `intersects` branch, otherwise the fold over the edges
 // ASSUMED contracts (abstract collaborators): Euclidean point-point distance and line length, Line/Rect/Triangle
-// `intersects` Point (proved in unit c02_intersects), `closest_of` (generic iterator fold: outside Verus), the scalar
+// `intersects` Point (proved in unit c02_intersects), `closest_of` (the generic fold: proved in unit c12_closest_of), the scalar
 // division (uninterpreted result).  The scalar is the exact ring of prelude_exact.
 //@include prelude_exact.rs
 verus! {
@@ -228,8 +228,8 @@ impl<F: GeoFloatD> ClosestPoint<F> for Line<F> {
 }
 
 // ------------------------------------------------------------------ Rect / Triangle
-/// the generic fold over the parts (`closest_of`: a `for` loop over an arbitrary IntoIterator, outside Verus;
-/// its step is best_of_two above, and K harness c12_k_linestring_with_repeated_last_vertex runs it on LineStrings)
+/// the generic fold over the parts (`closest_of`: a `for` loop over an arbitrary IntoIterator; abstract HERE, proved at a
+/// Vec instantiation in unit c12_closest_of; K harness c12_k_linestring_with_repeated_last_vertex runs it on LineStrings)
 pub uninterp spec fn m_closest_of<I, F: GeoFloat>(iter: I, p: Point<F>) -> Closest<F>;
 #[verifier::external_body]
 fn closest_of<C, F, I>(iter: I, p: Point<F>) -> (r: Closest<F>)
